@@ -8,6 +8,7 @@ import (
 	"strconv"
 	"strings"
 	"testing"
+	"time"
 )
 
 // SizeCase: a very long or very deeply nested input, built deterministically from (family, n).
@@ -97,11 +98,17 @@ func TestC03_Sizes(t *testing.T) {
 				j, _ := json.Marshal(Violation{Check: "c03-size", Key: fmt.Sprintf("C03/fatal/size/%s/%d", f.name, n), Msg: fmt.Sprintf("the process died (fatal error) on size family %s n=%d", f.name, n), Case: raw})
 				os.WriteFile("journal.json", j, 0o644)
 			}
+			t0 := time.Now()
 			out := checkC03Size(c)
+			slow := time.Since(t0) > 30*time.Second
 			rec.Case(n >= 1000, fmt.Sprintf("%s/%d", f.name, n), map[string]any{"family": f.name, "n": n}, "family-"+f.name)
 			rec.Count(3)
 			if !out.OK {
 				rec.Violate("c03-size", out.Key, out.Msg, c)
+				break
+			}
+			if slow {
+				rec.Note("family %s not escalated beyond n=%d: the case took %v (cost is C14's subject)", f.name, n, time.Since(t0).Round(time.Second))
 				break
 			}
 		}
